@@ -36,6 +36,11 @@ def run(facts, R):
     s = Sym(hc)
     # ---------------- guard-owns-disconnect --------------------------------------------------------------
     cons = struct_constructions(facts, GUARD)
+    if len(cons) > 1:
+        # one source site seen twice: the connection function's body moved into a parameterised sibling that is also spliced back into it
+        seen_sp = set()
+        cons = sorted(cons, key=lambda c_: 0 if c_[0] is hc else 1)
+        cons = [c_ for c_ in cons if not (c_[3].get("span") in seen_sp or seen_sp.add(c_[3].get("span")))]
     R.check(len(cons) == 1 and cons[0][0] is hc, "guard-owns-disconnect", "<crate>", "one construction site", "DisconnectGuard is built in %s" % [b.path for b, _, _, _ in cons])
     if len(cons) != 1:
         return
@@ -118,7 +123,7 @@ def run(facts, R):
     n_inv = 0
     for b in facts.bodies.values():
         for i, t in b.calls():
-            if t["callee"]["name"] in ("call", "call_mut", "call_once") and (t["callee"].get("self_ty") or "").startswith("dyn std::ops::Fn(peer::PeerId)"):
+            if t["callee"]["name"] in ("call", "call_mut", "call_once") and (t["callee"].get("self_ty") or "").startswith("dyn std::ops::Fn(peer::PeerId"):
                 n_inv += 1
                 R.check(b is dp, "guard-owns-disconnect", b.path, "disconnect hooks invoked only by the guard's Drop",
                         "%s invokes a disconnect hook directly: hooks can fire without / in addition to the guard" % b.path, t.get("span"), "in Drop")
@@ -278,6 +283,10 @@ def run(facts, R):
     ct = [(i, t) for i, t in acc.calls() if t["callee"]["name"] == "child_token"]
     R.check(len(ct) == 1, "drain-shape", acc.path, "connection token is a child of the drain token", "child_token calls: %d" % len(ct), acc.span)
     ao = struct_constructions(facts, WS + "AbortOnDrop")
+    if len(ao) > 1:
+        seen_sp2 = set()
+        ao = sorted(ao, key=lambda c_: 0 if c_[0] is hc else 1)
+        ao = [c_ for c_ in ao if not (c_[3].get("span") in seen_sp2 or seen_sp2.add(c_[3].get("span")))]
     okao = len(ao) == 1 and ao[0][0] is hc and "tokio::spawn(websocket_server::writer_task(" in render_n(s.rvalue(ao[0][3]["rv"]))
     R.check(okao, "drain-shape", hc.path, "writer held through AbortOnDrop", "AbortOnDrop constructions: %s" % [b.path for b, _, _, _ in ao], hc.span)
     ad = facts.body("<websocket_server::AbortOnDrop<T> as std::ops::Drop>::drop")
